@@ -17,6 +17,9 @@ func All() map[string]orch.Property {
 	m := map[string]orch.Property{}
 	for _, p := range []orch.Property{
 		&C01{},
+		&C03{},
+		&C10{},
+		&C11{},
 	} {
 		m[p.ID()] = p
 	}
